@@ -1,6 +1,7 @@
 mod cfi;
 mod gen;
 mod hist;
+mod macho;
 mod mem;
 mod model;
 mod pe;
@@ -57,6 +58,8 @@ fn main() {
         "row" => row::run(&tier, seed),
         "scn" => scn::run(&tier, seed),
         "pe" => pe::run(&tier, seed),
+        "macho" => macho::run(&tier, seed),
+        "ana" => macho::run_ana(&tier, seed),
         _ => {
             eprintln!("unknown engine {engine}");
             std::process::exit(2);
